@@ -757,6 +757,97 @@ def check_aod(tn, Y, I, y):
     return None
 
 
+# ---- scale families (search only): subnormal entries, products that underflow / approach overflow, one tiny core ----
+LD = np.longdouble      # x86 extended precision: exponent range +-4932, enough for a dense reference of every family
+
+
+def full_ld(Y):
+    Z = np.asarray(Y[0], dtype=LD)
+    for G in Y[1:]:
+        Z = np.tensordot(Z, np.asarray(G, dtype=LD), 1)
+    return Z.reshape([G.shape[1] for G in Y])
+
+
+def scale_catalogue(rng, big=False):
+    """(family, Y, tol): tol = relative tolerance of the dense reference check (subnormal operands lose bits, so the
+    families with subnormal entries or subnormal intermediate products only get a coarse sanity bound)"""
+    out = []
+    shapes = [[3, 4], [2, 3, 2], [2, 2, 2, 2]] + ([[3, 3, 3, 3, 3], [2, 1, 3]] if big else [])
+    for ns in shapes:
+        d = len(ns)
+        Y = rand_tt(rng, ns, [1] + [rng.randint(1, 3) for _ in range(d - 1)] + [1], 1, 3)
+        for sc, tol in ((1e-320, 1e-2), (1e-310, 1e-2), (1e-300, 1e-9), (1e-290, 1e-9)):
+            for pos in sorted({0, d - 1, rng.randrange(d)}):
+                Z = [G.copy() for G in Y]
+                Z[pos] = Z[pos] * sc
+                out.append((f'scale_{sc:g}_core{pos}', Z, tol))
+        out.append(('per_core_1e-160', [G * 1e-160 for G in Y], 1e-2))
+        out.append(('per_core_1e+150', [G * 1e150 for G in Y], 1e-9))
+        for pos in range(d):
+            Z = [G.copy() for G in Y]
+            Z[pos] = Z[pos] * 1e-160
+            out.append((f'tiny_core{pos}_1e-160', Z, 1e-9))
+    return out
+
+
+def check_scale(tn, what, Y, kw, tol):
+    """one stabilised routine on a scaled tensor: finite, well formed, and within tol of the extended-precision dense
+    reference where that is representable"""
+    inp = dict(routine='scale', what=what, kwargs=kw, Y=tt_json(Y), tol=tol)
+    ns = [G.shape[1] for G in Y]
+    ref = full_ld(Y)
+    sc = np.max(np.abs(ref))
+    try:
+        if what == 'orthogonalize':
+            Z, pw = tn.orthogonalize([G.copy() for G in Y], kw['k'], use_stab=True)
+            if not np.isfinite(pw):
+                return dict(what='orthogonalize(use_stab=True) returned a non-finite exponent', input=inp)
+            val = full_ld(Z) * LD(2) ** LD(int(pw))
+        elif what == 'truncate':
+            Z = tn.truncate([G.copy() for G in Y], kw.get('e', 1e-10), use_stab=True, is_eigh=kw['is_eigh'])
+            val = full_ld(Z)
+        elif what in ('norm', 'mul_scalar'):
+            z, pw = tn.norm(Y, use_stab=True) if what == 'norm' else tn.mul_scalar(Y, Y, use_stab=True)
+            if not (np.isfinite(z) and np.isfinite(pw)):
+                return dict(what=f'{what}(use_stab=True) returned non-finite ({z!r}, {pw!r})', input=inp)
+            if kw.get('value'):           # only where no square of an entry leaves the double range
+                r2 = np.sum(ref * ref)
+                want = np.sqrt(r2) if what == 'norm' else r2
+                got = LD(z) * LD(2) ** LD(pw)
+                if abs(got - want) > kw['value'] * want:
+                    return dict(what=f'{what}(use_stab=True) = {z!r} * 2^{pw!r}, dense reference {want!r}', input=inp)
+            return None
+        elif what == 'accuracy':
+            a = tn.accuracy(tn.mul([G.copy() for G in Y], 3.), Y)
+            b = tn.accuracy(Y, Y)
+            if not (np.isfinite(a) and np.isfinite(b)):
+                return dict(what=f'accuracy returned {a!r} / {b!r} on a finite scaled tensor', input=inp)
+            if kw.get('value') and abs(a - 2.) > kw['value']:
+                return dict(what=f'accuracy(3 Y, Y) = {a!r}, expected 2', input=inp)
+            return None
+        elif what == 'als':
+            rr = C.Rng(kw['seed'])
+            I, _ = _data_for(rr, ns, 'zero')
+            y = np.array([float(ref[tuple(r)]) for r in I])
+            Z = tn.als(I, y, [G.copy() for G in Y], nswp=2, use_stab=True, info={})
+            val = None
+        else:
+            raise KeyError(what)
+    except Exception as e:  # noqa
+        return dict(what=f'{what} (stabilised) raised on a finite valid scaled tensor: {e!r}'[:300], input=inp)
+    w = wf_shape(Z, ns)
+    if w:
+        return dict(what=f'{what} (stabilised) returned an ill-formed tensor: {w}', input=inp)
+    if not finite_tt(Z):
+        return dict(what=f'{what} (stabilised) returned non-finite entries on a finite scaled tensor', input=inp)
+    if val is not None and np.isfinite(float(sc)) and sc > 0:
+        err = np.max(np.abs(val - ref))
+        if not err <= tol * sc:
+            return dict(what=f'{what} (stabilised): dense tensor differs from the extended-precision reference by '
+                             f'{float(err / sc):.3e} (relative)', input=inp)
+    return None
+
+
 def _data_for(rng, ns, kind):
     """training data for the fitting routines: every slice of every mode is covered; repeated samples included"""
     I = []
@@ -910,6 +1001,8 @@ def _replay_one(tn, inp):
         return check_accuracy(tn, tt_of_json(inp['Y']), tt_of_json(inp['Y2']))
     if r == 'accuracy_on_data':
         return check_aod(tn, tt_of_json(inp['Y']), inp['I'], inp['y'])
+    if r == 'scale':
+        return check_scale(tn, inp['what'], tt_of_json(inp['Y']), inp['kwargs'], inp['tol'])
     if r in ('anova', 'als', 'cross'):
         return check_fit(tn, r, inp['ns'], inp['kind'], inp['seed'], inp['extra'])
     if r in ('tt_to_qtt', 'svd_matrix', 'func_int', 'matrix_svd', 'matrix_skeleton', 'core_tt_to_qtt', 'anova_func'):
@@ -925,7 +1018,7 @@ def search(R, ctx, deep, hints):
 
     def add(f):
         if f:
-            key = (f['what'][:60], f['input'].get('routine'))
+            key = (f['what'][:60], f['input'].get('routine'), f['input'].get('what'))
             if key not in seen:          # one representative per routine and failure kind, smallest first
                 seen.add(key)
                 fails.append(f)
@@ -1031,9 +1124,29 @@ def search(R, ctx, deep, hints):
             for extra in (dict(r=1), dict(r=2, cache=True, dr=0)):
                 n_eval += 1
                 add(check_fit(tn, 'cross', ns, kind, seed, extra))
+    # 5. scale families x every routine with a use_stab path, plus accuracy
+    sfam = {}
+    for fam, Y, tol in scale_catalogue(rng, big=deep):
+        sfam[fam.split('_core')[0]] = sfam.get(fam.split('_core')[0], 0) + 1
+        d = len(Y)
+        normal_sq = fam.startswith('per_core_1e+150')                  # squares stay in range only here
+        coarse = fam.startswith('per_core_1e-160') or fam.startswith('tiny')
+        todo = [('orthogonalize', dict(k=k)) for k in sorted({0, d - 1, d // 2})]
+        todo += [('truncate', dict(is_eigh=True)), ('truncate', dict(is_eigh=False)), ('truncate', dict(is_eigh=True, e=1e-2))]
+        todo += [('norm', dict(value=1e-9 if normal_sq else (1e-3 if coarse else 0))),
+                 ('mul_scalar', dict(value=1e-9 if normal_sq else (1e-3 if coarse else 0))),
+                 ('accuracy', dict(value=1e-6 if normal_sq else (1e-3 if coarse else 0)))]
+        if fam.startswith('tiny') or fam.startswith('scale_1e-290'):
+            todo.append(('als', dict(seed=rng.randrange(10 ** 6))))
+        for what, kw in todo:
+            n_eval += 1
+            f = check_scale(tn, what, Y, kw, tol)
+            if f:
+                f['family'] = fam
+            add(f)
     R.search.append(dict(name='np.isfinite + vis.show predicate on every TT-returning routine and scalar function over '
                               'the degenerate catalogue', evaluations=n_eval, failures=len(fails), deep=deep,
-                         families=fam_count))
+                         families=fam_count, scale_families=sfam))
     # observation outside the property (lead's decision): erank of a one-dimensional tensor
     try:
         R.notes.append(f'observation: erank of a d=1 tensor = {tn.erank([np.ones((1, 3, 1))])!r} (d=1 is outside the '
